@@ -121,7 +121,9 @@ func NewSched(t *Tape, cfg SchedCfg, nSites int) *Sched {
 
 // DrawSchedCfg draws a scheduling configuration.
 func DrawSchedCfg(t *Tape, nTasks int, estSteps uint64, typicalOp int) SchedCfg {
-	c := SchedCfg{MaxSteps: 30_000_000}
+	// the livelock cap is relative to the expected length of the run (a run
+	// of 36 batch multiplications legitimately passes 20 million yield points)
+	c := SchedCfg{MaxSteps: 10*estSteps + 5_000_000}
 	c.Policy = t.Choose("cfg", "policy", NumPolicies)
 	// mean quantum: from twice the typical operation down to 1/1024 of it
 	c.Mean = (2 * typicalOp) >> uint(t.Choose("cfg", "quantum_log2", 12))
